@@ -142,7 +142,7 @@ type atomMeta struct {
 	stable   bool
 	fields   map[string]bool // "Owner.field" / "var:name" designators that make the atom unstable
 	other    bool            // unstable for a reason a write summary cannot exclude (address-taken local, dereference)
-	scopes   [][2]token.Pos // lexical scopes of the locals mentioned: the fact is dead outside any of them
+	scopes   [][2]token.Pos  // lexical scopes of the locals mentioned: the fact is dead outside any of them
 }
 
 type xnode struct {
@@ -1503,3 +1503,6 @@ func (x *Explorer) SetEq(e ast.Expr, exact string, st *State) bool {
 	st.Regs[reg] = exact
 	return true
 }
+
+// Key renders a pure expression the way fact keys do (exported for rules that match facts by operand).
+func (x *Explorer) Key(e ast.Expr) (string, bool) { return x.key(Unparen(e)) }
